@@ -374,8 +374,10 @@ impl<T> Drop for Vec<T> {
         for (i, bucket) in self.buckets.iter_mut().enumerate() {
             let entries = *bucket.entries.get_mut();
 
+            // buckets are not necessarily allocated in order: an `extend` whose iterator
+            // reported a too large length reserves indices (and skips buckets) it never fills
             if entries.is_null() {
-                break;
+                continue;
             }
 
             let len = Location::bucket_len(i as u32);
